@@ -76,7 +76,7 @@ var clauseKeywords = map[string]bool{
 	"requires": true, "ensures": true, "assigns": true, "loop": true, "callback": true,
 	"resolves": true, "trusted": true, "inline": true, "holds": true, "assert": true,
 	"decreases": true, "hint": true, "modular": true, "spawns": true, "noframe": true,
-	"safety": true, "trigger": true, "assumes": true, "defers": true, "invokes": true,
+	"safety": true, "trigger": true, "assumes": true, "defers": true, "invokes": true, "defines": true,
 }
 
 var tagRe = regexp.MustCompile(`^\[([A-Z0-9, ]+)\]`)
